@@ -5,6 +5,7 @@ import (
 	"go/ast"
 	"go/token"
 	"go/types"
+	"math/big"
 
 	"lachk/core"
 )
@@ -13,7 +14,7 @@ const cpState = "kvdb/cachedproducer.cacheState"
 
 func init() {
 	register("C27", "other", "T16a SiblingAgreement (constructors initialise every map written), T1 LockSet, T7 Pairing, T4 GuardedBy (normalised counter tests)",
-		"Decides the reference-counting shape: both constructors (Wrap, WrapAll) initialise every map of the shared cache state that openDB writes into (a missing one makes the first open panic); the three maps are only touched under the state mutex; every path of openDB that returns a store increments the reference counter exactly once and returns the store kept in the cache; the close function returns an error when the counter is <= 0, forgets the entry and calls the real close exactly on counter == 1, and decrements otherwise; the drop function tests-and-clears the not-dropped mark under the lock and calls the real drop only on the marked edge. History equivalence with a reference-counting model is not decided.",
+		"Decides the reference-counting shape: both constructors (Wrap, WrapAll) initialise every map of the shared cache state that openDB writes into (a missing one makes the first open panic); the three maps are only touched under the state mutex; every path of openDB that returns a store increments the reference counter exactly once (paths taken per outcome of the cache lookup) and returns the store kept in the cache; the close function — with the counter logic inline or in one helper whose error and last-reference results are followed — returns an error when the counter is <= 0, forgets the entry and calls the real close exactly on counter == 1 (one test or two bounds), and stores back counter - 1 otherwise; the drop function tests-and-clears the not-dropped mark under the lock and calls the real drop only on the marked edge. History equivalence with a reference-counting model is not decided.",
 		[]string{"the wrapped producer's OpenDB/Close/Drop are opaque", "two concurrent first opens of one name are outside this property (histories are sequential)"},
 		runC27)
 }
@@ -116,16 +117,47 @@ func runC27(c *core.Ctx) {
 			},
 		}
 		res := core.RunLockset(p, spec)
-		n := reportLockset(c, res, nil, nil)
-		c.ExpectAtLeast("cache-state access groups", n, 6)
+		reportLockset(c, res, nil, nil)
+		// not vacuous: each of the three maps is seen being written somewhere (how the accesses are
+		// spread over functions and closures is a matter of layout, not of the property)
+		written := map[string]bool{}
+		for _, a := range res.Accesses {
+			if a.Write {
+				written[a.Field] = true
+			}
+		}
+		c.ExpectAtLeast("cache-state maps with analysed writes", len(written), 3)
 	})
 
 	open := c.Fn("kvdb/cachedproducer.openDB")
 	nameParam := open.ParamNamed("name")
 
 	isRefInc := func(f *core.FuncInfo, a assignment) bool {
+		// refCounter[k]++, refCounter[k] += 1, refCounter[k] = refCounter[k] + 1
 		ix, ok := ast.Unparen(a.LHS).(*ast.IndexExpr)
-		return ok && fieldNameOf(f, ix.X) == refc && a.Tok == token.INC
+		if !ok || fieldNameOf(f, ix.X) != refc {
+			return false
+		}
+		cell := func(e ast.Expr) string {
+			if jx, k := ast.Unparen(e).(*ast.IndexExpr); k && fieldNameOf(f, jx.X) == refc && varOf(f, jx.Index) != nil && varOf(f, jx.Index) == varOf(f, ix.Index) {
+				return "cell"
+			}
+			return ""
+		}
+		switch a.Tok {
+		case token.INC:
+			return true
+		case token.ADD_ASSIGN:
+			return a.RHS != nil && core.IsConstInt(f.Info(), a.RHS, 1)
+		case token.ASSIGN:
+			if a.RHS == nil {
+				return false
+			}
+			l := core.Linearize(f.Info(), a.RHS, cell)
+			k := l.Coef["cell"]
+			return len(l.Coef) == 1 && k != nil && k.Cmp(big.NewInt(1)) == 0 && l.C.Cmp(big.NewInt(1)) == 0
+		}
+		return false
 	}
 
 	c.Clause("C27.open", func() {
@@ -136,17 +168,29 @@ func runC27(c *core.Ctx) {
 				incs = append(incs, a.Pt)
 			}
 		}
-		c.ExpectAtLeast("refCounter[name]++ sites in openDB", len(incs), 2)
+		c.ExpectAtLeast("refCounter[name]++ sites in openDB", len(incs), 1)
 		okRet := returnsWith(open, 0, func(e ast.Expr) bool { return !core.IsNil(open.Info(), e) })
-		c.ExpectAtLeast("store-returning exits of openDB", len(okRet), 2)
+		c.ExpectAtLeast("store-returning exits of openDB", len(okRet), 1)
+		// paths are searched per outcome of the cache lookup (hit / miss), so that `if ok {count}; …; if ok
+		// {return}` is read like the nested form
+		scenarios := c27HitScenarios(open, opened)
+		isInc := core.PointSet(incs...)
 		for _, rp := range okRet {
-			ok, wit := open.MustPassBefore(incs, rp)
+			ok, wit := true, []core.Point(nil)
+			for _, infeasible := range scenarios {
+				if path, found := (core.PathQuery{F: open, From: open.Entry(), Target: core.PointSet(rp), Avoid: isInc, AvoidEdge: infeasible}).Find(); found && !isInc(rp) {
+					ok, wit = false, path
+				}
+			}
 			c.Check(ok, "open counted", "T7 Pairing", posOf(rp), "every path returning a store increments refCounter[name]", "a store is returned without counting the open: "+open.DescribePath(wit))
 		}
 		twice := false
 		for _, a := range incs {
-			for _, b := range incs {
-				if open.CanReach(a, b) {
+			for _, infeasible := range scenarios {
+				if _, reach := (core.PathQuery{F: open, From: open.Entry(), Target: core.PointSet(a), AvoidEdge: infeasible}).Find(); !reach && a != open.Entry() {
+					continue // this update does not happen in the scenario
+				}
+				if _, found := (core.PathQuery{F: open, From: a, FromAfter: true, Target: isInc, AvoidEdge: infeasible}).Find(); found {
 					twice = true
 				}
 			}
@@ -160,21 +204,65 @@ func runC27(c *core.Ctx) {
 				storeAssign = append(storeAssign, a)
 			}
 		}
-		okCache := len(storeAssign) == 1
+		okCache, whyCache := len(storeAssign) == 1, "opened[name] is not assigned at exactly one place"
 		if okCache {
-			sv := varOf(open, storeAssign[0].RHS)
-			last := okRet[len(okRet)-1]
-			r := last.Node().(*ast.ReturnStmt)
-			okCache = sv != nil && varOf(open, r.Results[0]) == sv
-			if okCache {
-				okCache, _ = open.MustPassBefore([]core.Point{storeAssign[0].Pt}, last)
+			st := storeAssign[0]
+			sv := varOf(open, st.RHS)
+			if sv == nil {
+				okCache, whyCache = false, "what is put into opened[name] is not a variable"
+			}
+			// variables read from the cache: v, ok := opened[name] / v := opened[name]
+			fromCache := map[*types.Var]bool{}
+			for _, a := range assignments(open) {
+				ix, k := ast.Unparen(a.RHS).(*ast.IndexExpr)
+				if !k || a.RHS == nil || fieldNameOf(open, ix.X) != opened {
+					continue
+				}
+				first := true
+				switch s := a.Stmt.(type) {
+				case *ast.AssignStmt:
+					first = a.LHS == s.Lhs[0]
+				case *ast.ValueSpec:
+					first = a.LHS == ast.Expr(s.Names[0])
+				}
+				if v := varOf(open, a.LHS); v != nil && first {
+					fromCache[v] = true
+				}
+			}
+			nAfter := 0
+			for _, rp := range okRet {
+				if !okCache {
+					break
+				}
+				rv := varOf(open, rp.Node().(*ast.ReturnStmt).Results[0])
+				_, hitPath := (core.PathQuery{F: open, From: open.Entry(), Target: core.PointSet(rp), Avoid: core.PointSet(st.Pt)}).Find()
+				missPath := open.CanReach(st.Pt, rp)
+				switch {
+				case rv == nil:
+					okCache, whyCache = false, "a successful exit returns something other than a variable holding the store"
+				case missPath && rv != sv:
+					okCache, whyCache = false, "the store returned after caching is not the one kept in opened[name]"
+				case hitPath && !fromCache[rv]:
+					okCache, whyCache = false, "a store is returned that was neither read from opened[name] nor put into it"
+				}
+				if missPath && okCache {
+					nAfter++
+					for _, d := range assignsToVar(open, sv) {
+						if open.CanReach(st.Pt, d.Pt) && open.CanReach(d.Pt, rp) {
+							okCache, whyCache = false, "the variable put into opened[name] is replaced before it is returned"
+						}
+					}
+				}
+			}
+			if okCache && nAfter == 0 {
+				okCache, whyCache = false, "no successful exit follows the caching of the new store"
 			}
 		}
-		c.Check(okCache, "new store is cached and returned", "provenance", open.Pos(), "the wrapped store is put into opened[name] and the same value is returned", "the store returned on the miss path is not the one kept in opened[name]")
+		c.Check(okCache, "new store is cached and returned", "provenance", open.Pos(), "the wrapped store is put into opened[name] and the same value is returned; a cache hit returns what was read from opened[name]", "the store returned by openDB is not the one kept in opened[name]: "+whyCache)
 		// notDropped[name] = true on every open
 		var nd []core.Point
 		for _, a := range assignments(open) {
-			if ix, ok := ast.Unparen(a.LHS).(*ast.IndexExpr); ok && fieldNameOf(open, ix.X) == notDropped && isIdentNamed(a.RHS, "true") {
+			if ix, ok := ast.Unparen(a.LHS).(*ast.IndexExpr); ok && fieldNameOf(open, ix.X) == notDropped && a.RHS != nil && c26IsTrue(open, a.RHS) {
 				nd = append(nd, a.Pt)
 			}
 		}
@@ -188,151 +276,79 @@ func runC27(c *core.Ctx) {
 	})
 
 	// the two closures
-	var closeFn, dropFn *core.FuncInfo
-	open.InspectOwn(func(n ast.Node) bool {
-		kv, ok := n.(*ast.KeyValueExpr)
-		if !ok {
-			return true
+	// (the StoreWithFn literal may be built in openDB or in a helper of the package)
+	var closeFn, dropFn, host *core.FuncInfo
+	for _, h := range p.Funcs() {
+		if core.RelPkg(h.Pkg.PkgPath) != "kvdb/cachedproducer" {
+			continue
 		}
-		id, ok := kv.Key.(*ast.Ident)
-		if !ok {
-			return true
-		}
-		lit, ok := ast.Unparen(kv.Value).(*ast.FuncLit)
-		if !ok {
-			return true
-		}
-		if v, ok := open.Info().ObjectOf(id).(*types.Var); ok {
-			switch p.FieldName(v) {
-			case "kvdb/cachedproducer.StoreWithFn.CloseFn":
-				closeFn = p.LitInfo(lit)
-			case "kvdb/cachedproducer.StoreWithFn.DropFn":
-				dropFn = p.LitInfo(lit)
+		h := h
+		h.InspectOwn(func(n ast.Node) bool {
+			kv, ok := n.(*ast.KeyValueExpr)
+			if !ok {
+				return true
 			}
-		}
-		return true
-	})
+			id, ok := kv.Key.(*ast.Ident)
+			if !ok {
+				return true
+			}
+			lit, ok := ast.Unparen(kv.Value).(*ast.FuncLit)
+			if !ok {
+				return true
+			}
+			if v, ok := h.Info().ObjectOf(id).(*types.Var); ok {
+				switch p.FieldName(v) {
+				case "kvdb/cachedproducer.StoreWithFn.CloseFn":
+					closeFn, host = p.LitInfo(lit), h
+				case "kvdb/cachedproducer.StoreWithFn.DropFn":
+					dropFn, host = p.LitInfo(lit), h
+				}
+			}
+			return true
+		})
+	}
 
-	// real close/drop variables: method values of the underlying store
-	methodValueVar := func(method string) *types.Var {
-		for _, a := range assignments(open) {
-			if sel, ok := ast.Unparen(a.RHS).(*ast.SelectorExpr); ok && a.RHS != nil {
-				if fn, ok := open.Info().Uses[sel.Sel].(*types.Func); ok && core.FuncName(fn) == method {
-					return varOf(open, a.LHS)
+	// the real close/drop of the underlying store: a call of a local holding the method value
+	// (realClose := store.Close), or a direct call of the interface method
+	isReal := func(methods ...string) func(cs *core.CallSite) bool {
+		vars := map[types.Object]bool{}
+		for g := host; g != nil; g = g.Parent {
+			for _, a := range assignments(g) {
+				if sel, ok := ast.Unparen(a.RHS).(*ast.SelectorExpr); ok && a.RHS != nil {
+					if fn, ok := g.Info().Uses[sel.Sel].(*types.Func); ok {
+						for _, m := range methods {
+							if core.FuncName(fn) == m {
+								if v := varOf(g, a.LHS); v != nil {
+									vars[v] = true
+								}
+							}
+						}
+					}
 				}
 			}
 		}
-		return nil
+		return func(cs *core.CallSite) bool {
+			if cs.Callee != nil && vars[cs.Callee] {
+				return true
+			}
+			for _, m := range methods {
+				if cs.Name == m {
+					return true
+				}
+			}
+			return false
+		}
 	}
 
 	c.Clause("C27.close", func() {
-		c.Need(closeFn != nil, "StoreWithFn literal with CloseFn closure in openDB")
-		f := closeFn
-		realClose := methodValueVar("kvdb.Store.Close")
-		if realClose == nil {
-			realClose = methodValueVar("io.Closer.Close")
-		}
-		c.Need(realClose != nil, "realClose := store.Close")
-		// counter variable = refCounter[name]
-		var counter *types.Var
-		for _, a := range assignments(f) {
-			if ix, ok := ast.Unparen(a.RHS).(*ast.IndexExpr); ok && a.RHS != nil && fieldNameOf(f, ix.X) == refc {
-				counter = varOf(f, a.LHS)
-			}
-		}
-		c.Need(counter != nil, "counter := refCounter[name]")
-		namer := func(e ast.Expr) string {
-			if varOf(f, e) == counter {
-				return "counter"
-			}
-			return ""
-		}
-		lin := func(want string) func(core.Fact) bool {
-			w := core.ParseLinCmp(want)
-			return func(ft core.Fact) bool {
-				lc, ok := core.NormLinCmp(f.Info(), ft, namer)
-				return ok && lc.Equal(w)
-			}
-		}
-		// error return <=> counter <= 0
-		errRets := returnsWith(f, 0, func(e ast.Expr) bool {
-			return !core.IsNil(f.Info(), e) && isCallTo(f, e, "errors.New", "fmt.Errorf") != nil
-		})
-		c.ExpectAtLeast("error returns of CloseFn", len(errRets), 1)
-		for _, rp := range errRets {
-			ok, _ := f.GuardedBy(rp, lin("counter <= 0"))
-			c.Check(ok, "over-close reported", "T4 GuardedBy", posOf(rp), "the error is returned on the counter <= 0 edge", "the over-close error is not tied to counter <= 0")
-		}
-		// real close call: guarded by a flag set only on counter == 1; deletes on that edge
-		rc := f.CallsMatching(func(cs *core.CallSite) bool { return cs.Callee == types.Object(realClose) })
-		c.Check(len(rc) == 1, "real close called at one site", "T6 WhoMayCall", f.Pos(), "exactly one call of the real close", fmt.Sprintf("%d calls of the real close in CloseFn", len(rc)))
-		if len(rc) == 1 {
-			// flag variable
-			var flag *types.Var
-			okG, _ := f.GuardedBy(rc[0].Pt, func(ft core.Fact) bool {
-				cm, ok := core.NormCmp(ft)
-				if ok && cm.R == nil && cm.Op == token.EQL {
-					if v := varOf(f, cm.L); v != nil && v != counter {
-						flag = v
-						return true
-					}
-				}
-				return lin("counter - 1 == 0")(ft)
-			})
-			c.Check(okG, "real close is conditional", "T4 GuardedBy", rc[0].Pos(), "the real close is reached only through a flag / counter test", "the real close is called unconditionally")
-			if flag != nil {
-				nSet := 0
-				for _, a := range assignsToVar(f, flag) {
-					if isIdentNamed(a.RHS, "true") {
-						nSet++
-						ok, wit := f.GuardedBy(a.Pt, lin("counter - 1 == 0"))
-						ok0, _ := f.GuardedBy(a.Pt, lin("-counter + 1 <= 0")) // counter >= 1, i.e. not the error edge
-						c.Check(ok && ok0, "close flag set exactly on counter == 1", "T4 GuardedBy", a.Stmt.Pos(), "the flag enabling the real close is set only on the counter == 1 edge (last reference)", "the underlying database can be closed while references remain: "+f.DescribePath(wit))
-						// both deletes on that edge
-						for _, fld := range []string{refc, opened} {
-							del := core.Points(f.CallsMatching(func(cs *core.CallSite) bool {
-								return cs.Name == "builtin.delete" && len(cs.Call.Args) > 0 && fieldNameOf(f, cs.Call.Args[0]) == fld
-							}))
-							okD, _ := pairedWith(f, a.Pt, del)
-							c.Check(okD, "last close forgets "+short(fld), "T7 Pairing", a.Stmt.Pos(), "delete("+short(fld)+", name) is on every path through the last-close edge", "the last close does not delete "+short(fld)+"[name] (a later open would return a closed store)")
-						}
-					} else if a.RHS != nil && !isIdentNamed(a.RHS, "false") {
-						c.Fail("close flag has an unexpected definition", "T4 GuardedBy", a.Stmt.Pos(), "the flag guarding the real close is assigned something other than true/false")
-					}
-				}
-				c.ExpectAtLeast("assignments enabling the real close", nSet, 1)
-			}
-		}
-		// decrement otherwise: refCounter[name] = counter after counter--, on the edge counter > 1
-		nDec := 0
-		for _, a := range assignments(f) {
-			if ix, ok := ast.Unparen(a.LHS).(*ast.IndexExpr); ok && fieldNameOf(f, ix.X) == refc {
-				nDec++
-				var decs []core.Point
-				for _, d := range assignsToVar(f, counter) {
-					if d.Tok == token.DEC {
-						decs = append(decs, d.Pt)
-					}
-				}
-				ok1 := varOf(f, a.RHS) == counter
-				ok2, _ := f.MustPassBefore(decs, a.Pt)
-				ok3, _ := f.GuardedBy(a.Pt, lin("-counter + 1 <= 0"))
-				okN, _ := f.GuardedBy(a.Pt, lin("counter - 1 != 0"))
-				c.Check(ok1 && ok2 && ok3 && okN, "other closes decrement the counter", "T7 Pairing", a.Stmt.Pos(), "on the counter > 1 edge the counter is decremented by one and stored back", "the counter is not decremented by exactly one on the remaining-references edge")
-			}
-		}
-		c.ExpectAtLeast("counter write-backs in CloseFn", nDec, 1)
+		c.Need(closeFn != nil, "StoreWithFn literal with CloseFn closure in the cachedproducer package")
+		c27Close(c, closeFn, isReal("kvdb.Store.Close", "io.Closer.Close"), refc, opened)
 	})
 
 	c.Clause("C27.drop", func() {
-		c.Need(dropFn != nil, "StoreWithFn literal with DropFn closure in openDB")
+		c.Need(dropFn != nil, "StoreWithFn literal with DropFn closure in the cachedproducer package")
 		f := dropFn
-		realDrop := methodValueVar("kvdb.Droper.Drop")
-		if realDrop == nil {
-			realDrop = methodValueVar("kvdb.Store.Drop")
-		}
-		c.Need(realDrop != nil, "realDrop := store.Drop")
-		rd := f.CallsMatching(func(cs *core.CallSite) bool { return cs.Callee == types.Object(realDrop) })
+		rd := f.CallsMatching(isReal("kvdb.Droper.Drop", "kvdb.Store.Drop"))
 		c.Check(len(rd) == 1, "real drop called at one site", "T6 WhoMayCall", f.Pos(), "exactly one call of the real drop", fmt.Sprintf("%d calls of the real drop in DropFn", len(rd)))
 		if len(rd) != 1 {
 			return
